@@ -30,6 +30,7 @@ type Config struct {
 	SpecialHost bool   // import env.grow (i32)->i32 and env.callback (i32)->i32
 	HostModule  string // module name of the host imports ("" = "env")
 	Sink        bool   // fold values that statements would drop into an exported global (observability)
+	SegmentRich bool   // bias statements towards passive-segment and table instructions and runtime ref.func (C11)
 	CallRich    bool   // bias statements and expressions towards calls (C20)
 	Enter       bool   // weave a call to the host import enter(i32 funcIndex) into every function entry (ground truth for C20)
 	WASI        bool   // import a few wasi_snapshot_preview1 functions and use them
@@ -77,17 +78,18 @@ type gen struct {
 	f    *fctx
 	sigs []Sig // signature per function index
 
-	memSize   uint64 // initial bytes
-	passiveD  []int  // data segment indices that are passive
-	passiveE  map[byte][]int
-	nData     int
-	nElem     int
-	funcTable int // index of a funcref table or -1
-	fuelIdx   uint32
-	wasiFdWr  int
-	sinkIdx   int // global index of the sink or -1
-	nimp      int // number of imported functions
-	enterIdx  int // function index of the "enter" import or -1; never called by generated code
+	memSize     uint64 // initial bytes
+	passiveD    []int  // data segment indices that are passive
+	passiveDLen []int  // their lengths
+	passiveE    map[byte][]int
+	nData       int
+	nElem       int
+	funcTable   int // index of a funcref table or -1
+	fuelIdx     uint32
+	wasiFdWr    int
+	sinkIdx     int // global index of the sink or -1
+	nimp        int // number of imported functions
+	enterIdx    int // function index of the "enter" import or -1; never called by generated code
 }
 
 func (g *gen) has(f Feature) bool { return g.cfg.Features&f == f }
@@ -363,10 +365,12 @@ func (g *gen) module() {
 	if g.out.HasMemory {
 		nd := g.rng(0, 3, "ndata")
 		for i := 0; i < nd; i++ {
-			data := rapid.SliceOfN(rapid.Byte(), 0, 24).Draw(g.t, "data")
+			dl := g.rng(0, 24, "datalen") // (rapid's own slice lengths are biased towards very short)
+			data := rapid.SliceOfN(rapid.Byte(), dl, dl).Draw(g.t, "data")
 			if g.has(FeatBulk) && g.chance(40, "passive") {
 				m.Datas = append(m.Datas, wasmenc.PassiveData(data))
 				g.passiveD = append(g.passiveD, g.nData)
+				g.passiveDLen = append(g.passiveDLen, len(data))
 			} else if g.memSize >= uint64(len(data)) && g.memSize > 0 {
 				off := rapid.Uint64Range(0, g.memSize-uint64(len(data))).Draw(g.t, "dataoff")
 				if off > 1<<20 && g.chance(90, "lowdata") {
@@ -841,7 +845,30 @@ func (g *gen) stmt() (terminated bool) {
 			kind = "callind"
 		}
 	}
+	if g.cfg.SegmentRich && g.chance(30, "segrich") {
+		kind = []string{"bulk", "bulk", "table", "reffunc", "reffunc"}[g.intn(5, "segkind")]
+	}
 	switch kind {
+	case "reffunc":
+		// a reference created at run time by ref.func, stored into the table and called through it
+		if g.funcTable < 0 || !g.has(FeatBulk) || g.out.Tables[g.funcTable].Min == 0 || len(g.sigs) <= g.nimp {
+			return false
+		}
+		ti := g.out.Tables[g.funcTable]
+		slot := int32(g.intn(int(ti.Min), "rfslot"))
+		fn := uint32(g.nimp + g.intn(len(g.sigs)-g.nimp, "rffn"))
+		g.i32const(slot)
+		g.f.emit("ref.func", wasmenc.NewB().RefFunc(fn).Bytes(), int64(fn))
+		g.f.emit("table.set", wasmenc.NewB().TableSet(ti.Index).Bytes(), int64(ti.Index))
+		sg := g.sigs[fn]
+		for _, p := range sg.P {
+			g.expr(p, 2)
+		}
+		g.i32const(slot)
+		typ := g.m.AddType(sg.P, sg.R)
+		g.stat("reffunc-call")
+		g.f.emit("call_indirect", wasmenc.NewB().CallIndirect(typ, ti.Index).Bytes(), int64(typ), int64(ti.Index))
+		g.consumeAll(sg.R)
 	case "localset":
 		if len(g.f.locals) == 0 {
 			return false
@@ -1309,7 +1336,14 @@ func (g *gen) bulkMem() {
 			g.expr(I32, 2)
 		}
 	}
-	switch g.intn(4, "bulk") {
+	bk := g.intn(4, "bulk")
+	if g.cfg.SegmentRich && len(g.passiveD) > 0 && g.chance(70, "segbulk") {
+		bk = 2
+		if g.chance(25, "segbulkdrop") {
+			bk = 3
+		}
+	}
+	switch bk {
 	case 0:
 		addr()
 		g.expr(I32, 2)
@@ -1326,14 +1360,22 @@ func (g *gen) bulkMem() {
 		if len(g.passiveD) == 0 {
 			return
 		}
-		seg := uint32(g.passiveD[g.intn(len(g.passiveD), "seg")])
+		si := g.intn(len(g.passiveD), "seg")
+		seg := uint32(g.passiveD[si])
 		addr()
-		g.i32const(int32(g.intn(8, "srcoff")))
-		g.i32const(int32(g.intn(20, "initn")))
+		if l := g.passiveDLen[si]; l > 0 && g.chance(80, "initinrange") {
+			// inside the segment: succeeds unless the segment was dropped
+			src := g.intn(l, "srcoff")
+			g.i32const(int32(src))
+			g.i32const(int32(1 + g.intn(l-src, "initn")))
+		} else {
+			g.i32const(int32(g.intn(8, "srcoff")))
+			g.i32const(int32(g.intn(20, "initn")))
+		}
 		g.stat("memory.init")
 		g.f.emit("memory.init", wasmenc.NewB().MemoryInit(seg).Bytes(), int64(seg))
 	default:
-		if len(g.passiveD) == 0 || !g.chance(40, "dodrop") {
+		if len(g.passiveD) == 0 || !(g.chance(40, "dodrop") || g.cfg.SegmentRich) {
 			return
 		}
 		seg := uint32(g.passiveD[g.intn(len(g.passiveD), "seg")])
@@ -1359,7 +1401,14 @@ func (g *gen) tableIdx(ti TableInfo) {
 
 func (g *gen) tableStmt() {
 	ti := g.out.Tables[g.intn(len(g.out.Tables), "table")]
-	switch g.intn(6, "tablestmt") {
+	tk := g.intn(6, "tablestmt")
+	if g.cfg.SegmentRich && len(g.passiveE[ti.Elem]) > 0 && g.chance(60, "segtable") {
+		tk = 4
+		if g.chance(25, "segtabledrop") {
+			tk = 5
+		}
+	}
+	switch tk {
 	case 0:
 		g.tableIdx(ti)
 		g.expr(ti.Elem, 2)
@@ -1403,7 +1452,7 @@ func (g *gen) tableStmt() {
 		g.f.emit("table.init", wasmenc.NewB().TableInit(seg, ti.Index).Bytes(), int64(seg), int64(ti.Index))
 	default:
 		segs := g.passiveE[ti.Elem]
-		if len(segs) == 0 || !g.chance(40, "doelemdrop") {
+		if len(segs) == 0 || !(g.chance(40, "doelemdrop") || g.cfg.SegmentRich) {
 			return
 		}
 		seg := uint32(segs[g.intn(len(segs), "eseg")])
